@@ -589,7 +589,7 @@ fn mode_c12prefix(args: &[String])
     let threads: usize = args[1].parse().unwrap();
     let cfg = Arc::new(load_cfg(&args[2]));
     // framings: whole message; suffix of "[ref: "; of "[ref:"; of "[ref"; prefix of "[ref: 1] x"
-    let framings: Vec<(&str, &str)> = vec![("", ""), ("[ref: ", ""), ("[ref:", ""), ("[ref", ""), ("", "[ref: 1] x")];
+    let framings: Vec<(&str, &str)> = vec![("", ""), ("[ref: ", ""), ("[ref:", ""), ("[ref", ""), ("", "[ref: 1] x"), ("[ref: ", "[ref: 1] x"), ("[ref: ", "] [ref: 7] y")];
     let cases = Arc::new(AtomicU64::new(0));
     let present = Arc::new(AtomicU64::new(0));
     let nfail = Arc::new(AtomicU64::new(0));
